@@ -93,10 +93,5 @@ Fixpoint cut_bodies (short : bool) (ms : list (layout * list N)) (cut : N) : lis
       if short && (h <? cut) then [Body (take (cut - h) (snd m))] else []
   end.
 
-(* how the loop must end: normally.  (The synchronous `run` has no handler for a reader that
-   raises ConnectionResetError; pipes do not reset, and the clause is stated as it is.) *)
-Definition cut_term (k : kind) (e : ending) : term :=
-  match k, e with
-  | Sync, AtReset => Raised EReset
-  | _, _ => EndedNormally
-  end.
+(* how the loop must end: normally, for every reader and either ending *)
+Definition cut_term (k : kind) (e : ending) : term := EndedNormally.
